@@ -61,6 +61,10 @@ pub fn deactivate() -> Kernel {
 }
 
 /// Suspend interposition (used by harness code that must talk to the real kernel mid-run).
+pub fn sim_running() -> bool {
+    g().kernel.is_some()
+}
+
 pub fn pause() -> bool {
     let was = g().active;
     g().active = false;
